@@ -15,6 +15,7 @@ StepsMism(acc, steps, i) ==
            c == Finish(a2)
        IN (IF s.native # c THEN {"acc.native." \o s.op} ELSE {}) \cup (IF s.u32 # c THEN {"acc.u32." \o s.op} ELSE {})
           \cup (IF s.u64 # c THEN {"acc.u64." \o s.op} ELSE {})
+          \cup (IF s.moved # 1 THEN {"acc.depends_on_address"} ELSE {})
           \cup (IF s.native_nz # NoZero(c) \/ s.u32_nz # NoZero(c) \/ s.u64_nz # NoZero(c) THEN {"acc.no_zero"} ELSE {})
           \cup StepsMism(a2, steps, i + 1)
 
